@@ -197,8 +197,12 @@ def build_harness(features=(), release=False):
     cmd = ["cargo", "build", "--offline"]
     if release:
         cmd.append("--release")
-    if features:
-        cmd += ["--features", ",".join(features)]
+    # the pseudo-feature "no_ahash" builds the harness (hence assets_manager) without default features
+    real = [f for f in features if f != "no_ahash"]
+    if "no_ahash" in features:
+        cmd.append("--no-default-features")
+    if real:
+        cmd += ["--features", ",".join(real)]
     hdir = os.path.join(VERIF, "harness")
     if REPO != "/repo":
         cmd += ["--config", f'patch."/repo".assets_manager.path="{REPO}"']
